@@ -33,6 +33,7 @@ def convert(
 ) -> ast.expr:
     pending_node_stack: list[PendingNode] = []
     utils.reset_unique_id()
+    utils.validate(ast_root)
     utils.mangle_private_names(ast_root)
     nsp_global = generate_nsp(symtable_root, configs)
     nsp_stack: list[Namespace] = [nsp_global]
